@@ -137,7 +137,7 @@ def print_axioms(mod, names):
 
 
 # ------------------------------------------------------------------------------------------------
-def run_oracle(exe, lines, timeout=180, env=None):
+def run_oracle(exe, lines, timeout=180, env=None, tscale=1):
     """Feeds the lines to the oracle; a crash is attributed to the line being processed and the oracle is
     restarted after it. Returns list of outputs (same length as lines)."""
     outs = []
@@ -158,7 +158,7 @@ def run_oracle(exe, lines, timeout=180, env=None):
         # keep sticky mode lines
         try:
             p = subprocess.run([exe], input="\n".join(pre + chunk) + "\n", stdout=subprocess.PIPE, stderr=subprocess.PIPE,
-                               text=True, timeout=min(timeout, 20 + len(chunk) // 100), env=env)
+                               text=True, timeout=tscale * min(timeout, 20 + len(chunk) // 100), env=env)
         except subprocess.TimeoutExpired as te:
             class P:   # a hang is attributed to the line being processed, like a crash
                 pass
@@ -292,10 +292,28 @@ def correspondence(ctx, mod, streams, budget_scale=1):
     for st in streams:
         lines = st["lines"]
         t0 = time.time()
-        outs = run_oracle(st["exe"], lines, env=st.get("env"))
+        outs = run_oracle(st["exe"], lines, env=st.get("env"), tscale=st.get("tscale", 1))
         t1 = time.time()
-        pairs = ["%s => %s" % (l, o) for l, o in zip(lines, outs)]
-        ver = run_driver(pairs)
+        if st.get("crash_only"):
+            # memory-safety streams (C08): the functional verdicts of these lines belong to other properties; here a line
+            # fails when the sanitizer build crashes / reports, a guard word changed, or the output differs from the
+            # optimised build of the same tree (behaviour depending on undefined or uninitialised data)
+            ref = run_oracle(st["ref_exe"], lines, env=st.get("env")) if st.get("ref_exe") else None
+            ver = []
+            for i, (l, o) in enumerate(zip(lines, outs)):
+                if l.startswith("cfg"):
+                    ver.append("cfg")
+                elif o.startswith("CRASH"):
+                    ver.append("FAIL S crash")
+                elif "WROTE-" in o:
+                    ver.append("FAIL S model=[] spec=[no write outside the caller's buffer] got=[%s]" % o[:300])
+                elif ref is not None and ref[i] != o and not ref[i].startswith("CRASH"):
+                    ver.append("FAIL S model=[] spec=[%s] got=[%s] differs-between-builds" % (ref[i][:300], o[:300]))
+                else:
+                    ver.append("ok san," + l.split(" ")[0])
+        else:
+            pairs = ["%s => %s" % (l, o) for l, o in zip(lines, outs)]
+            ver = run_driver(pairs)
         t2 = time.time()
         log("[corr] %s: %d lines, oracle %.1fs, driver %.1fs" % (st["name"], len(lines), t1 - t0, t2 - t1))
         ctxl = None
